@@ -113,9 +113,15 @@ let parse_tok t = if is_number (string_of_coq t) then Some t else None
 (* pass-through "library": embedding = one row per sample = transpose of the feature matrix *)
 (* the library validates target_dimension in [1, #samples) for every method, pass-through included; the
    file stream runs with --td 1, so fewer than 2 samples (columns of the feature matrix) is an exception *)
-let passthru _ _ features =
-  let samples = match features with r :: _ -> List.length r | [] -> 0 in
-  if samples < 2 then None else Some (transpose features, None)
+(* nsamples comes from cli_main: a feature matrix without rows (dimension 0) still has N columns; its
+   transpose, the embedding, is N empty rows *)
+let rec nat_to_int = function O -> 0 | S n -> 1 + nat_to_int n
+let passthru _ _ nsamples features =
+  let samples = nat_to_int nsamples in
+  if samples < 2 then None
+  else match features with
+    | [] -> Some (List.init samples (fun _ -> []), None)
+    | _ -> Some (transpose features, None)
 
 let split_args toks =
   (* toks after the command: '[' args ']' rest *)
